@@ -110,7 +110,7 @@ def inline_helpers(crate):
             continue
         ret = b.get("ret", "")
         ptys = [p.get("ty", "") for p in b["params"]]
-        if ret.startswith("impl "):
+        if ret.startswith("impl ") and not b.get("is_async"):
             # parser factories: the combinator vocabulary of the skeleton and the factories parametrised by tree nodes or
             # by the argument vector stay nodes of the skeleton; a private factory parametrised by plain data (a quote
             # byte, a radix letter ...) is evaluated in place, so that its instances are told apart by their arguments
